@@ -626,9 +626,19 @@ CONSTANTS
   Scales = {}
   Motions = {}
   Perp <- NoPerp
+  SkipClauses = %s
 INVARIANT Accepted
 CHECK_DEADLOCK FALSE
 """
+ALL_CLAUSES = {'anchor_has_two_bonds', 'anchor_is_nearest', 'axis_invariant', 'dist_only', 'equivariant', 'finite', 'law', 'local',
+               'mutual_distance', 'scaled_distance'}
+MINE = {'C01': {'anchor_has_two_bonds', 'anchor_is_nearest', 'law', 'finite'},
+        'C02': {'anchor_has_two_bonds', 'anchor_is_nearest', 'equivariant', 'axis_invariant', 'dist_only', 'finite'},
+        'C03': {'anchor_has_two_bonds', 'anchor_is_nearest', 'scaled_distance', 'mutual_distance', 'local', 'finite'}}
+
+
+def tla_set(names):
+    return '{' + ', '.join('"%s"' % n for n in sorted(names)) + '}'
 
 
 def _work(args):
@@ -738,11 +748,9 @@ def check(run, props):
             for line in fh:
                 t = json.loads(line)
                 rtraces[t['tid']] = t
-    verdicts = validate_batches('Trace_XMapGeom', TRACE_CFG, parts, run.scratch, timeout=3000, run=run)
-    mine = {'C01': {'anchor_has_two_bonds', 'anchor_is_nearest', 'law', 'finite'},
-            'C02': {'anchor_has_two_bonds', 'anchor_is_nearest', 'equivariant', 'axis_invariant', 'dist_only', 'finite'},
-            'C03': {'anchor_has_two_bonds', 'anchor_is_nearest', 'scaled_distance', 'mutual_distance', 'local', 'finite'}}
+    mine = MINE
     allowed = set().union(*(mine[p] for p in props))
+    verdicts = validate_batches('Trace_XMapGeom', TRACE_CFG % tla_set(ALL_CLAUSES - allowed), parts, run.scratch, timeout=3000, run=run)
     kinds = {}
     for tid, tr in rtraces.items():
         v = verdicts.get(tid)
